@@ -188,6 +188,39 @@ def r10_6(ck: Check) -> None:
                     st.fi.loc)
 
 
+def r10_7(ck: Check) -> None:
+    s = ck.summ(CRP + "remove_from_inventory", 0)
+    sp = Spec(s, ("self", "h"), forall=[("(i, ms)", "enumerate(self.inventory_messages)"), ("(j, it)", "enumerate(ms.message.items)")])
+    d1 = [e for e in s.events if e.kind == "del" and e.term == sp.term("ms.message.items[j]")]
+    spo = Spec(s, ("self", "h"), forall=[("(i, ms)", "enumerate(self.inventory_messages)")])
+    d2 = [e for e in s.events if e.kind == "del" and e.term == spo.term("self.inventory_messages[i]")]
+    construct = "remove_from_inventory: the received block's item is removed; an inventory with no items left is dropped"
+    if len(d1) == 1 and [c.term for c in d1[0].pc] == [sp.term("it.hash == h")] and len(d2) == 1 \
+            and [c.term for c in d2[0].pc if c.prov == "branch"] == [spo.term("len(ms.message.items) == 0")]:
+        ck.ok("R10.7", construct, "so inventory_batch_handled becomes true exactly when every listed block has arrived", s.fi.loc)
+    else:
+        ck.violated("R10.7", construct, "%s" % [e.describe()[:160] for e in d1 + d2], s.fi.loc)
+    h = ck.summ(CRP + "handle_block_received", 0)
+    sph = Spec(h, ("self", "header", "message"))
+    rm = [e for e in h.events if e.kind == "call" and CRP + "remove_from_inventory" in e.targets]
+    if len(rm) == 1 and rm[0].term[2] == (sph.term("message.data.hash()"),) and not residual(rm[0], ()):
+        ck.ok("R10.7", "every received block is struck from the pending inventories, by its id", "", rm[0].loc)
+    else:
+        ck.violated("R10.7", "every received block is struck from the pending inventories, by its id", "%s" % [e.describe()[:120] for e in rm], h.fi.loc)
+    init = ck.summ("skepticoin.networking.messages.InventoryItem.__init__", 0)
+    st = {show(e.term): e.value for e in init.events if e.kind == "store"}
+    if st.get("self.block_requested") == C(False):
+        ck.ok("R10.7", "a fresh inventory item is not yet requested", "", init.fi.loc)
+    else:
+        ck.violated("R10.7", "a fresh inventory item is not yet requested", "block_requested starts as %s" % show(st.get("self.block_requested", C(None))), init.fi.loc)
+    ims = ck.summ("skepticoin.networking.remote_peer.InventoryMessageState.__init__", 0)
+    st = {show(e.term): e.value for e in ims.events if e.kind == "store"}
+    if st.get("self.actually_used") == C(False) and st.get("self.message") == ("v", "message") and st.get("self.header") == ("v", "header"):
+        ck.ok("R10.7", "a queued inventory starts unused, with its message and header", "", ims.fi.loc)
+    else:
+        ck.violated("R10.7", "a queued inventory starts unused, with its message and header", "%s" % {k: show(v) for k, v in st.items()}, ims.fi.loc)
+
+
 def check(ck: Check) -> None:
     ck.explanations.append(
         "C10 (partly): decides the local clauses the statement and its mechanism list name — a block is relayed only when new and newly head "
@@ -202,4 +235,7 @@ def check(ck: Check) -> None:
     ck.run("R10.4", "inventory consumption", lambda: r10_4(ck))
     ck.run("R10.5", "locator", lambda: r10_5(ck))
     ck.run("R10.6", "active fetching predicate and step", lambda: r10_6(ck))
+    ck.run("R10.7", "inventory bookkeeping", lambda: r10_7(ck))
+    from .c09 import r09_9
+    ck.run("R09.9", "solicited vs unsolicited data", lambda: r09_9(ck))
     ck.assume("NOT decided: convergence of 2-3 nodes under all schedules; completeness of the fetched chain at quiescence")
